@@ -521,26 +521,50 @@ class Ev(object):
     def _class_env(self, cls):
         return {"locals": {}, "mod": cls.mod, "closure": None, "fname": cls.name}
 
+    _BUILTIN_DECOS = ("classmethod", "staticmethod", "property")
+
+    def apply_decorators(self, fv, decorators, env, st):
+        """Apply user decorators (innermost first) to a function value.  functools.wraps /
+        lru_cache / cache are transparent.  -> decorated callable value."""
+        val = fv
+        for d in reversed(decorators):
+            outs = self.expr(d, env, st)
+            if len(outs) != 1:
+                raise AnalysisError("%s:%d: forking decorator expression" % (env["mod"].relpath, d.lineno))
+            st, dv = outs[0]
+            if isinstance(dv, (ExtV,)) and dv.name in ("functools.lru_cache", "functools.cache", "functools.wraps"):
+                continue
+            if isinstance(dv, App) and dv.f in ("functools.lru_cache", "functools.wraps", "functools.cache"):
+                continue          # lru_cache(maxsize=..)(f), wraps(g)(f): behaviour of f unchanged (pure f)
+            res = self.call(dv, (val,), (), st, self.site(d, env))
+            if len(res) != 1:
+                raise AnalysisError("%s:%d: decorator has %d outcomes" % (env["mod"].relpath, d.lineno, len(res)))
+            val = res[0].value
+            st = res[0].state
+        return val
+
     def _bind_method(self, r, obj, cls, st, site, force_bind=False):
         _, node, owner = r
         fv = FuncV(node, owner.mod, owner=owner)
-        decos = [d.id for d in node.decorator_list if isinstance(d, ast.Name)]
-        if len(decos) != len(node.decorator_list):
-            raise AnalysisError("%s:%d: unsupported decorator on %s" % (owner.mod.relpath, node.lineno, node.name))
-        if "classmethod" in decos:
-            return [(st, Bound(fv, cls))]
-        if "staticmethod" in decos:
-            return [(st, fv)]
-        if "property" in decos:
+        names = [d.id for d in node.decorator_list if isinstance(d, ast.Name)]
+        user = [d for d in node.decorator_list if not (isinstance(d, ast.Name) and d.id in self._BUILTIN_DECOS)]
+        val = fv
+        if user:
+            key = ("deco", fv._key)
+            if key not in self.policy._cache:
+                self.policy._cache[key] = self.apply_decorators(fv, user, self._class_env(owner), self.world.static if self.world.static is not None else st)
+            val = self.policy._cache[key]
+        if "classmethod" in names:
+            return [(st, Bound(val, cls))]
+        if "staticmethod" in names:
+            return [(st, val)]
+        if "property" in names:
             if obj is None:
-                return [(st, fv)]
-            return [(o.state, o.value) for o in self._invoke(fv, (obj,), (), st, site)]
-        unknown = [d for d in decos if d not in ("classmethod", "staticmethod", "property")]
-        if unknown:
-            raise AnalysisError("%s:%d: unsupported decorator %s" % (owner.mod.relpath, node.lineno, unknown))
+                return [(st, val)]
+            return [(o.state, o.value) for o in self.call(val, (obj,), (), st, site)]
         if obj is not None:
-            return [(st, Bound(fv, obj))]
-        return [(st, fv)]
+            return [(st, Bound(val, obj))]
+        return [(st, val)]
 
     def e_Subscript(self, n, env, st):
         res = []
@@ -928,6 +952,8 @@ class Ev(object):
                 return [Outcome("return", args[2], st)]
             self.do_raise(st, "AttributeError", site, args[1].v)
             return []
+        if name in ("setattr", "getattr", "delattr", "hasattr") and len(args) >= 2 and not isinstance(args[1], Const):
+            raise AnalysisError("%s: %s() with an attribute name that does not fold to a constant" % (site, name))
         if name == "setattr" and len(args) == 3 and isinstance(args[1], Const):
             self.store_attr(args[0], args[1].v, args[2], st, site)
             return [Outcome("return", NONE, st)]
@@ -1179,10 +1205,10 @@ class Ev(object):
 
     def s_FunctionDef(self, n, env, st):
         e2 = self._cp(env)
+        fv = FuncV(n, env["mod"], closure=None if env.get("toplevel") else e2)
         if n.decorator_list:
-            raise AnalysisError("%s:%d: decorated nested/module function %s is not supported"
-                                % (env["mod"].relpath, n.lineno, n.name))
-        e2["locals"][n.name] = FuncV(n, env["mod"], closure=None if env.get("toplevel") else e2)
+            fv = self.apply_decorators(fv, n.decorator_list, e2, st)
+        e2["locals"][n.name] = fv
         return [Path(st, "normal", e2)]
 
     def s_ClassDef(self, n, env, st):
